@@ -7,14 +7,72 @@ import sys
 HERE = os.path.dirname(os.path.dirname(os.path.abspath(__file__)))
 PY = "/venv/bin/python"
 
+_NOTE = "Trusts CPython, pynmeagps/pyrtcm as the definitions of NMEA/RTCM3 acceptance, and the simulator's own sealers / checksums (self-tested against literal vectors and the repo's recorded logs). Sampled search: a clean batch is evidence with stated reach, not a proof."
+
 CLAIMED = {
     # id: (category, technique, level text, level note, design ref)
+    "C05": (
+        "fault_enumeration",
+        "deterministic simulation with fault injection: every single link fault (substitute/insert/delete/truncate, each also resealed) on a basket of emitted frames + seeded multi-fault sequences, delivered as datagrams to parse() and embedded in streams; own well-formedness reference as oracle",
+        "Fault enumeration: the complete single-fault neighbourhood of 10 basket frames under 4 msgmodes, plus seeded multi-fault sequences over the whole message catalogue, arbitrary short byte strings and corrupted frames inside simulated streams. The oracle is independent arithmetic (own Fletcher-8, length and sync rules).",
+        _NOTE,
+        "DESIGN.md §4 C05",
+    ),
     "C06": (
         "exploration",
-        "deterministic simulation: seeded 3-source device + fault-injecting link (drop/dup/reorder/noise/corruption) + SimFile/SimSocket schedules; constructive oracle from the post-fault wire",
-        "Seeded search over frame histories, link faults and arrival schedules against the real reader; every delivered item is compared with what the protocol's own static parser returns for the frame the simulator put on the wire. Evidence over the sampled space, not a proof.",
-        "Trusts CPython, pynmeagps/pyrtcm as the definitions of NMEA/RTCM3 acceptance, and the simulator's own sealers (self-tested against literal vectors and the repo's recorded logs).",
+        "deterministic simulation: seeded 3-source device + fault-injecting link (drop/dup/reorder/noise/boundary-preserving corruption) + SimFile/SimSocket arrival schedules; constructive oracle from the post-fault wire",
+        "Seeded search over frame histories, link faults and arrival schedules against the real reader; every delivered item is compared with what the protocol's own static parser returns for the frame the simulator put on the wire.",
+        _NOTE,
         "DESIGN.md §4 C06",
+    ),
+    "C07": (
+        "exploration",
+        "deterministic simulation: arbitrary/garbage/mutated wires through SimFile, SimSocket (segmentation, bufsize, close|timeout, mid-stream stall with re-reading) and SimSerial (short reads); byte-ledger invariants (slice embedding, preamble, nothing left unread); all wires up to length 4 over the frame alphabet enumerated",
+        "Seeded search over byte streams, transports and non-raising reader configurations; the oracle only uses the transport's own ledger of bytes handed out and the raw items returned, so any framing strategy that satisfies the property passes.",
+        _NOTE,
+        "DESIGN.md §4 C07",
+    ),
+    "C08": (
+        "exploration",
+        "deterministic simulation with fault injection: firmware-variant device walking the whole message catalogue with checksum-valid payloads of every length class + link corruption + all transports and reader configurations; exception-class, inspection and step-budget (bounded liveness) oracles",
+        "Seeded search over (definition x payload length x content x configuration x transport faults). Liveness is decided in steps (transport-call budget and a loop-iteration meter), so a hang is a replayable verdict. The parse() half is exercised with the frames the simulated device/link produce, under 16 option combinations each.",
+        _NOTE + " One open finding (IndexError from pynmeagps on proprietary NMEA sentences with a missing first field) is listed in known_findings.json.",
+        "DESIGN.md §4 C08",
+    ),
+    "C09": (
+        "fault_enumeration",
+        "deterministic simulation, crash-point enumeration: the data source dies after every byte k of each sampled wire (file EOF, socket peer close, socket silence+timeout); relational oracle against the uncut run",
+        "For every sampled wire of <= 400 bytes every cut position is executed on three end conditions and compared with the uncut run on the same transport (prefix, no exception, no hang, raws inside the cut, complete frames before the cut delivered on clean wires). Wires are sampled; cut points are enumerated.",
+        _NOTE,
+        "DESIGN.md §4 C09",
+    ),
+    "C10": (
+        "exploration",
+        "deterministic simulation: sender task + link + SimSocket under a seeded arrival schedule and virtual clock (segmentation, coalescing, bufsize clipping, close|timeout); relational oracle vs io.BytesIO; byte-queue reference model for SocketWrapper.read/readline; all segmentations of short wires",
+        "Seeded search over wires x arrival schedules x bufsize x end condition with the real SocketWrapper on a simulated socket; plus every segmentation of 10 basket wires <= 12 bytes and seeded call sequences against a byte-queue model.",
+        _NOTE + " Real TCP delivery from an OS thread is replaced by the simulated sender (OS scheduling would not replay).",
+        "DESIGN.md §4 C10",
+    ),
+    "C11": (
+        "exploration",
+        "deterministic simulation: one seeded wire (incl. corrupted and nested frames of the filtered-out protocols) executed under all 8 protocol masks x parsing on/off on a seeded transport; relational oracle",
+        "Seeded search over wires and transports; each wire is executed 16 times and the runs are related by the filter relation, with the simulator's own preamble classifier deciding protocol membership.",
+        _NOTE,
+        "DESIGN.md §4 C11",
+    ),
+    "C12": (
+        "exploration",
+        "deterministic simulation with fault injection: one seeded wire executed under ERR_IGNORE, ERR_LOG (+/- handler) and ERR_RAISE; unified DELIVER/ERROR event log; constructive oracle for boundary-preserving corruption, relational oracle for arbitrary wires",
+        "Seeded search over histories of good and corrupted frames and arbitrary wires; under ERR_LOG the event log must equal the per-frame verdicts of the protocol parsers (exactly one error per rejected frame, with that exception), and the other policies are related to it.",
+        _NOTE,
+        "DESIGN.md §4 C12",
+    ),
+    "C13": (
+        "exploration",
+        "deterministic simulation: seeded operation histories (incl. aborted operations and set/del attempts) and 2-4 real threads under a baton-passing scheduler (sys.settrace line / sys.monitoring instruction pre-emption) in pristine forked processes; cold-golden, stdout/stderr fd ledger and shared-table digest oracles",
+        "Seeded search over operation histories and thread interleavings whose every switch is chosen (and recorded) by the simulator; each result is compared with the same operation executed first in a pristine process; fd-level and sys-level output ledgers and a digest of the shared tables are checked after every operation.",
+        _NOTE + " Interleavings are explored at line (and, in thorough runs, bytecode-instruction) granularity; atomicity of single bytecodes is assumed.",
+        "DESIGN.md §4 C13",
     ),
 }
 
@@ -31,7 +89,7 @@ NOT_APPLICABLE = {
 }
 
 _P = "claimed by DESIGN.md as a simulation target; its check is still under construction in this tree, so no verdict is offered yet"
-PENDING = {pid: _P for pid in ("C05", "C07", "C08", "C09", "C10", "C11", "C12", "C13")}
+PENDING = {}
 
 
 def main():
